@@ -43,8 +43,12 @@ _FS_EVENTS = _MUT_EVENTS | {"open", "os.listdir", "os.scandir"}
 
 
 # ------------------------------------------------------------------------------------------------ source material
+import functools  # noqa: E402
+
+
+@functools.lru_cache(maxsize=None)
 def _files(fmt):
-    """relative path -> bytes (None = directory); deterministic binary content"""
+    """relative path -> bytes (None = directory); deterministic binary content (cached: treat as read-only)"""
     def blob(tag, n):
         return bytes((i * 31 + len(tag) * 7 + ord(tag[0])) % 256 for i in range(n))
     if fmt == "raw":
@@ -136,91 +140,37 @@ def _state_shape(snap, expected):
 
 
 # ------------------------------------------------------------------------------------------------ child execution
+_server = None
+
+
+def _get_server():
+    """the light fork server (see h20_server.py); restarted if it died"""
+    global _server
+    if _server is None or _server.poll() is not None:
+        _server = subprocess.Popen([sys.executable, "-u", str(Path(__file__).with_name("h20_server.py")), str(core.REPO)],
+                                   stdin=subprocess.PIPE, stdout=subprocess.PIPE, text=True, bufsize=1)
+        hello = json.loads(_server.stdout.readline())
+        if not hello.get("ready") or not hello["folder_file"].startswith(str(core.REPO)):
+            raise core.Inconclusive(f"fork server did not start from the repository under test: {hello}")
+        import atexit
+        atexit.register(lambda: _server and _server.poll() is None and _server.kill())
+    return _server
+
+
 def _call_in_child(root, scn, kill_at=None, workers=0):
-    """runs the real function in a forked child under the audit monitor.
-    returns dict(status=returned|killed|raised, result=..., events=[(name, path, mutating)], err=str)"""
-    rfd, wfd = os.pipe()
-    pid = os.fork()
-    if pid == 0:
-        try:
-            os.close(rfd)
-            _child_main(root, scn, kill_at, workers, wfd)
-        finally:
-            os._exit(0)
-    os.close(wfd)
-    chunks = []
-    while True:
-        b = os.read(rfd, 65536)
-        if not b:
-            break
-        chunks.append(b)
-    os.close(rfd)
-    _, st = os.waitpid(pid, 0)
-    lines = b"".join(chunks).decode(errors="replace").splitlines()
-    events, result, err = [], None, None
-    for ln in lines:
-        try:
-            rec = json.loads(ln)
-        except Exception:
-            continue
-        if rec[0] == "E":
-            events.append((rec[1], rec[2], rec[3]))
-        elif rec[0] == "R":
-            result = rec[1]
-        elif rec[0] == "X":
-            err = rec[1]
-    if os.WIFSIGNALED(st):
-        status = "killed"
-    elif err is not None:
-        status = "raised"
-    elif result is not None:
-        status = "returned"
-    else:
-        status = "lost"
-    return {"status": status, "result": result, "events": events, "err": err}
-
-
-def _child_main(root, scn, kill_at, workers, wfd):
-    rootstr = str(root)
-    state = {"n": 0, "armed": True}
-
-    def emit(obj):
-        os.write(wfd, (json.dumps(obj) + "\n").encode())
-
-    def hook(event, args):
-        if not state["armed"] or event not in _FS_EVENTS:
-            return
-        paths = [a for a in args[:2] if isinstance(a, (str, bytes, os.PathLike))]
-        paths = [os.fsdecode(p) for p in paths]
-        if not any(p.startswith(rootstr) for p in paths):
-            return
-        mutating = event in _MUT_EVENTS
-        if event == "open":
-            mode, flags = args[1], args[2] if len(args) > 2 else 0
-            mutating = bool((isinstance(mode, str) and any(c in mode for c in "wax+")) or
-                            (isinstance(flags, int) and flags & (os.O_WRONLY | os.O_RDWR | os.O_CREAT | os.O_TRUNC | os.O_APPEND)))
-        state["n"] += 1
-        if kill_at is not None and state["n"] == kill_at:
-            os.kill(os.getpid(), signal.SIGKILL)
-            time.sleep(10)
-        rel = [p[len(rootstr):] for p in paths if p.startswith(rootstr)]
-        emit(["E", event, rel, mutating])
-
+    """runs the real function in a forked child (of the light fork server) under the audit monitor.
+    returns dict(status=returned|killed|raised, result=..., events=[(name, paths, mutating)], err=str)"""
     g, l, rel, dst = _paths(root, scn)
-    if scn["fn"] == "folder":
-        from kappadata.copying.folder import copy_folder_from_global_to_local as fn
-    else:
-        from kappadata.copying.image_folder import copy_imagefolder_from_global_to_local as fn
-    sys.addaudithook(hook)
-    try:
-        res = fn(global_path=g, local_path=l, relative_path=rel, num_workers=workers)
-        state["armed"] = False
-        fields = {k: getattr(res, k) for k in ("was_copied", "was_deleted", "source_format", "was_zip", "was_zip_classwise") if hasattr(res, k)}
-        emit(["R", fields])
-    except BaseException as e:  # noqa
-        state["armed"] = False
-        import traceback
-        emit(["X", f"{type(e).__name__}: {e} :: " + "".join(traceback.format_tb(e.__traceback__)[-2:])[-600:]])
+    req = {"root": str(root), "fn": scn["fn"], "g": str(g), "l": str(l), "rel": rel, "kill_at": kill_at, "workers": workers}
+    srv = _get_server()
+    srv.stdin.write(json.dumps(req) + "\n")
+    srv.stdin.flush()
+    line = srv.stdout.readline()
+    if not line:
+        raise core.Inconclusive("fork server died")
+    res = json.loads(line)
+    res["events"] = [tuple(e) for e in res["events"]]
+    return res
 
 
 # ------------------------------------------------------------------------------------------------ scenarios / generation
@@ -257,6 +207,9 @@ def _prepare(root, scn, user=None):
 
 def gen_cases(run):
     scns = _scenarios()
+    if run.tier == "quick":
+        # quick: half of the path variants (plain destination with existing parent; nested relative_path with missing parents)
+        scns = [s for s in scns if (s["rel"] is None) == s["parent"]]
     rng = run.rng
     shard_i, shard_n = run.shard if run.shard else (0, 1)
     idx = 0
